@@ -197,6 +197,28 @@ func randScalar(r *rand.Rand, fd protoreflect.FieldDescriptor) string {
 	return "0"
 }
 
+func (s *schema) listMax() int {
+	if s.big > 0 {
+		return s.big
+	}
+	return 4
+}
+
+// bigMsg: long lists and maps at every level, every field set, and every top-level string
+// longer than one WebAssembly page.
+func (s *schema) bigMsg(r *rand.Rand, md protoreflect.MessageDescriptor, strLen int) []interface{} {
+	s.big = 24
+	v := s.randMsg(r, md, 3, 1.0)
+	s.big = 0
+	fds := md.Fields()
+	for j := 0; j < fds.Len(); j++ {
+		if k, _ := classify(fds.Get(j)); k == kString && strLen > 0 {
+			v[j] = hexs(strings.Repeat("S", strLen))
+		}
+	}
+	return v
+}
+
 // randMsg: every field is set with probability p (message fields stop at depth 0).
 func (s *schema) randMsg(r *rand.Rand, md protoreflect.MessageDescriptor, depth int, p float64) []interface{} {
 	fds := md.Fields()
@@ -219,7 +241,7 @@ func (s *schema) randMsg(r *rand.Rand, md protoreflect.MessageDescriptor, depth 
 				out[j] = defaults(fd.Message())
 			}
 		case kRepString:
-			n := r.Intn(4)
+			n := r.Intn(s.listMax())
 			l := make([]interface{}, n)
 			for i := range l {
 				l[i] = hexs(randString(r))
@@ -228,7 +250,7 @@ func (s *schema) randMsg(r *rand.Rand, md protoreflect.MessageDescriptor, depth 
 		case kRepMsg:
 			n := 0
 			if depth > 0 {
-				n = r.Intn(4)
+				n = r.Intn(s.listMax())
 			}
 			l := make([]interface{}, n)
 			for i := range l {
@@ -236,7 +258,7 @@ func (s *schema) randMsg(r *rand.Rand, md protoreflect.MessageDescriptor, depth 
 			}
 			out[j] = l
 		case kMapSS:
-			n := r.Intn(4)
+			n := r.Intn(s.listMax())
 			var kv []string
 			seen := map[string]bool{}
 			for i := 0; i < n; i++ {
@@ -283,6 +305,9 @@ func (s *schema) systematic(r *rand.Rand) []*caseIn {
 		}
 		for k := 0; k < 3; k++ {
 			out = append(out, &caseIn{Msg: nm, Val: s.randMsg(r, md, 4, 1.0), Stream: "full", Note: fmt.Sprintf("every-field-set/%d", k)})
+		}
+		if fds.Len() > 1 {
+			out = append(out, &caseIn{Msg: nm, Val: s.bigMsg(r, md, 0), Stream: "full", Note: "big-lists"})
 		}
 	}
 	return out
@@ -414,6 +439,7 @@ func runCases(o *hx.Opts, w *lineio.Writer) error {
 		ins = append(ins, s.lenBoundary()...)
 		ins = append(ins, s.excluded(o.Rand(13))...)
 		ins = append(ins, s.rawCases(o.Rand(15))...)
+		ins = append(ins, s.glueCases(o.Rand(16), o.N(25, 400))...)
 		ins = append(ins, s.random(o.Rand(14), o.N(12000, 300000))...)
 		for i, in := range ins {
 			ids = append(ids, fmt.Sprintf("%s-%d", in.Stream, i))
@@ -451,6 +477,15 @@ func runCases(o *hx.Opts, w *lineio.Writer) error {
 			}
 			var out res
 			for i, in := range part {
+				if in.Stream == "glue" {
+					gobs, err := s.execGlue(o.Scratch, in)
+					if err != nil {
+						out.err = fmt.Errorf("case %s: %v", ids[lo+i], err)
+						break
+					}
+					out.lines = append(out.lines, &lineio.Case{ID: ids[lo+i], In: in, Obs: gobs})
+					continue
+				}
 				if in.Stream == "raw" {
 					ro, err := s.execRaw(in)
 					if err != nil {
